@@ -141,6 +141,16 @@ def _explore_evaluate(comp, task):
     ids = {id(s) for s in all_stmts}
     out["coverage"] = {"statements": len(ids), "reached": len(ids & covered)}
     out["flags"] = flags
+    if kassert.CROSS["queries"]:
+        flags["cvc5_queries"] = kassert.CROSS["queries"]
+        flags["cvc5_agree"] = kassert.CROSS["agree"]
+        flags["cvc5_inconclusive"] = kassert.CROSS["inconclusive"]
+        if kassert.CROSS["disagree"]:
+            out["status"] = "harness-error"
+            out["error"] = "solver disagreement: " + "; ".join(kassert.CROSS["disagree"][:3])
+        for k in ("n", "queries", "agree", "inconclusive"):
+            kassert.CROSS[k] = 0
+        kassert.CROSS["disagree"] = []
     return out
 
 
